@@ -194,6 +194,9 @@ func (l *SimLiquidWallet) CreateAndBroadcastTransaction(p *swap.OpeningParams, a
 		TakerPub: p.TakerPubkey, MakerPub: p.MakerPubkey, PayHash: p.ClaimPaymentHash, BlindPriv: p.BlindingKey.Serialize(), ValueCommitment: swapOut.Value, AssetOK: true})
 	l.Balance -= p.Amount + fee
 	l.Openings = append(l.Openings, txid)
+	if lay.Change && lay.SpendChange && idx != 0 {
+		w.Sim.After(ms(45000), "wallet", "spend-change", func() { w.LBTC.SpendPlain(n.ID, txid, 0) })
+	}
 	w.Observe(&Obs{Node: n.ID, Inc: n.inc, Kind: "wallet.opening", Str: txid, Num: int64(idx), Tx: &TxObs{Chain: "lbtc", TxID: txid, Hex: rawHex, Kind: "opening"}})
 	if f != nil && f.Kind == "errafter" {
 		// e.g. LWK: broadcast succeeded, fetching the raw transaction afterwards failed
